@@ -62,6 +62,12 @@ def run(run):
         # a failed delivery records its dead letter and returns the error: neither the recorder nor the delivery function panics
         from rules import sendrules
         sendrules.delivery_never_panics(run, f, "O13.7")
+        # the blocking timeout helpers have one unrecorded `Error::Send` ("helper thread terminated unexpectedly"): it is an
+        # exception to the pairing rule only because the helper cannot die before it reports - no panic site in the thread
+        # closures (covered by O13.7 through the family of the primitives) and the timeout wrapper it runs is total in its
+        # Duration argument (C10 rule O10.1: no panicking Instant + Duration)
+        from rules import c10
+        c10.wrapper_shape(run, f, sp)
 
 
 def flows_to_return(sp, site, st):
